@@ -222,6 +222,8 @@ impl WakeCase {
     }
 
     fn poller_returned(&mut self) {
+        // a signal that found nobody waiting is gone
+        simk::with_ring(self.rfd, |r, _| r.intr_next_wait = false);
         self.returns += 1;
         self.oblig = false;
         self.poller = None;
@@ -270,6 +272,7 @@ impl Case for WakeCase {
         }
         let w_bad = if rng.chance(1, 40) { 1 } else { 0 };
         match rng.weighted(&[w_poll, w_p, w_call, w_w, w_k, w_io, w_bad]) {
+            0 if rng.chance(1, 6) => Some("wake polli".into()),
             0 => Some(format!("wake poll {}", if rng.chance(4, 5) { 1 } else { 0 })),
             1 => Some("wake p".into()),
             2 => {
@@ -298,6 +301,22 @@ impl Case for WakeCase {
                     return vec!["bad-op".into()];
                 }
                 self.spawn_poller(*inf == "1");
+                if self.poller.as_ref().unwrap().done {
+                    self.poller_returned();
+                    format!("p idle {}", self.state())
+                } else {
+                    format!("p start {}", self.state())
+                }
+            }
+            // a `Ring::poll(None)` during which a signal arrives: its wait in the kernel, if it
+            // comes to one, ends with EINTR
+            ["wake", "polli"] => {
+                if self.poller.is_some() {
+                    return vec!["bad-op".into()];
+                }
+                simk::with_ring(self.rfd, |r, _| r.intr_next_wait = true);
+                self.feats.push("poll-interrupted".into());
+                self.spawn_poller(true);
                 if self.poller.as_ref().unwrap().done {
                     self.poller_returned();
                     format!("p idle {}", self.state())
